@@ -110,13 +110,13 @@ def verify_unit(unit_path: str, contracts, canary: bool = False, rlimit: float =
     recoveries: List[str] = []
     base_sha = baseline_fn_sha()
     for _round in range(6):
-        asm.DROP_CLAUSES, asm.DROP_INSERTS = drop_clauses, drop_inserts
+        asm.set_drops(drop_clauses, drop_inserts)
         try:
             a = asm.assemble(unit_path, contracts, canary=canary, extras=extras)
         except asm.LostAnchor as e:
             return UnitResult(unit, fname, '', 'lost-anchor', str(e), wall_s=time.time() - t0)
         finally:
-            asm.DROP_CLAUSES, asm.DROP_INSERTS = set(), set()
+            asm.set_drops(set(), set())
         with open(fname, 'w') as f:
             f.write(a.text)
         rc, out, err, cmd = run_verus(fname, rlimit, seed, threads)
@@ -172,6 +172,7 @@ def verify_unit(unit_path: str, contracts, canary: bool = False, rlimit: float =
         repo_loc = None
         clause = None
         label = None
+        named_assert = None
         tags: List[str] = []
         own = [s for s in spans if s.get('file_name', '').endswith(os.path.basename(fname))]
         for s in own:
@@ -184,6 +185,21 @@ def verify_unit(unit_path: str, contracts, canary: bool = False, rlimit: float =
             elif o.get('kind') == 'insert' and label is None and 'assert' in msg:
                 label = 'assert@%s' % o.get('vc')
                 tags = list(o.get('tags', []))
+                # an assertion may carry its own name and property tags in a trailing comment: `// [name C01 C06]`
+                ln = s.get('line_start', 0)
+                if 0 < ln <= len(gen_lines):
+                    mm = re.search(r'//\s*\[([A-Za-z0-9_. \-]+)\]', gen_lines[ln - 1])
+                    if mm:
+                        toks_ = mm.group(1).split()
+                        nm_ = [t for t in toks_ if not re.match(r'^C\d\d$', t)]
+                        tg_ = [t for t in toks_ if re.match(r'^C\d\d$', t)]
+                        if nm_:
+                            clause = gen_lines[ln - 1].split('//')[0].strip()
+                            assert_name = nm_[0]
+                            label = 'assert@%s' % o.get('vc')
+                            named_assert = assert_name
+                        if tg_:
+                            tags = sorted(set(tags) | set(tg_))
             elif o.get('kind') in ('unit', 'include') or o.get('kind') == 'unit':
                 # shim / prelude line: look for //@tag
                 ln = s.get('line_start', 0)
@@ -216,6 +232,8 @@ def verify_unit(unit_path: str, contracts, canary: bool = False, rlimit: float =
             label = 'safety'
             tags = ['C05']
         fnl = '%s::%s' % (fninfo.file, fninfo.item)
+        if named_assert:
+            msg = '%s [%s]' % (msg, named_assert)
         res.failures.append(Failure(unit, fnl, '%s:%s#%s' % (unit, fninfo.item, label), tags, msg, repo_loc, clause,
                                     d.get('rendered') or msg))
     res.wall_s = time.time() - t0
@@ -248,7 +266,7 @@ def baseline_fn_sha() -> Dict[str, str]:
 
 
 _UNKNOWN_FN = re.compile(r"cannot find function `(\w+)` in this scope")
-_UNKNOWN_METHOD = re.compile(r"no (?:method|function or associated item) named `(\w+)` found for (?:reference |struct |mutable reference )?`&?(?:mut )?'?\w*\s*(\w+)")
+_UNKNOWN_METHOD = re.compile(r"no (?:method|function or associated item) named `(\w+)` found for [^`]*`[^`]*?(\w+)(?:<[^`]*>)?`")
 
 
 def _recover(a: asm.Assembled, err: str, base: str, base_sha, drop_clauses: set, drop_inserts: set, extras: list, log: list) -> bool:
